@@ -836,6 +836,61 @@ fn observe(g: &mut G, rng: &Shared, m: &Model, stats: &mut std::collections::BTr
         after.text
     );
     let output = format!("~{:e} {} 1 1 {} {} 1 ok", t.p_to_flip, d.k, if t.accepted { "1" } else { "-" }, p2tok);
+    // --- kind `region`: the exact proposal model replayed on the recorded draws must produce exactly
+    // the traced region and consume exactly the words drawn before the accept draw.
+    // Oracle (model independent): (1) the update leaves what the proposal reads untouched (positions of
+    // the constant operators per variable, cutoff); (2) the proposal reads nothing else: from a
+    // configuration with the same constant-operator positions but different spins / operator contents
+    // (one `single_cluster_step` applied to a clone of `before`) the same words propose the same region.
+    {
+        let mut rfails: Vec<String> = vec![];
+        let cps_b = const_ps(&before, m.nvars);
+        if const_ps(&after, m.nvars) != cps_b || after.slots.len() != before.slots.len() {
+            rfails.push("the update changed the positions of constant operators or the cutoff (the data the proposal reads)".into());
+        }
+        let mut gs = g_before.clone();
+        rng.free();
+        let rs = catch(std::panic::AssertUnwindSafe(|| gs.single_cluster_step()));
+        let scr = snap(&gs);
+        if rs.is_ok() && const_ps(&scr, m.nvars) == cps_b && scr.slots.len() == before.slots.len() {
+            if scr.state != before.state || scr.slots != before.slots {
+                *stats.entry("region_scrambled_differs".into()).or_insert(0) += 1;
+            }
+            rng.script(&log);
+            let _ = take_trace();
+            let r3 = catch(std::panic::AssertUnwindSafe(|| gs.single_rvb_sweep(Some(1))));
+            rng.free();
+            let tr3 = take_trace();
+            match (r3, tr3.get(0)) {
+                (Ok(_), Some(t3)) => {
+                    if reg_of(t3) != reg {
+                        rfails.push(format!(
+                            "the proposal depends on more than the constant-operator positions: same words, same positions, other spins propose {:?} instead of {:?}",
+                            reg_of(t3),
+                            reg
+                        ));
+                    }
+                    *stats.entry("region_scrambled_probes".into()).or_insert(0) += 1;
+                }
+                (Err(msg), _) => rfails.push(format!("proposal from the cluster-flipped configuration panicked: {}", msg)),
+                _ => rfails.push("no trace from the cluster-flipped configuration".into()),
+            }
+        } else {
+            rng.free();
+            *stats.entry("region_scramble_skipped".into()).or_insert(0) += 1;
+        }
+        let _ = take_trace();
+        let prop_draws = log.len() as i64 - tail as i64;
+        let cells = cell_count(&before, &reg, m.nvars);
+        *stats.entry(format!("region_cells_{}", cells.min(6))).or_insert(0) += 1;
+        *stats.entry(format!("region_proposal_draws_{}", (prop_draws.max(0) as usize).min(12))).or_insert(0) += 1;
+        emit(
+            cells >= 2,
+            &format!("region {} {} {} {}", m.nvars, show_edges(m), before.text, list(&log)),
+            &format!("{} {} {} {} ok", list(&reg.subvars), bits(&reg.start), list(&reg.toggles), prop_draws),
+            Some(if rfails.is_empty() { Ok(()) } else { Err(rfails.join("; ")) }),
+        );
+    }
     *stats.entry(format!("rvb_{}_{}", m.name, if t.accepted { "accepted" } else { "rejected" })).or_insert(0) += 1;
     *stats.entry(format!("rvb_rotatable_{}", d.k.min(4))).or_insert(0) += 1;
     *stats.entry(format!("rvb_toggles_{}", reg.toggles.len().min(6))).or_insert(0) += 1;
